@@ -26,13 +26,14 @@ VARIABLES cert, rot,                     \* env: the certificate and the root of
           ndef, nren,                    \* env: deviations applied so far / of which namings
           scale,                         \* env: "near" | "extreme" - where the three instants and the free
                                          \* ends of the validity windows lie on the calendar
+          tz,                            \* env: UTC offset of the machine the validator runs on
           clks, outs,                    \* env/obs: clock instant of every validation so far, and its outcome
           phase, cur, visited, chain, certifier, steps,   \* sys
           outcome, failing, reported     \* obs: what the validator returns for the target
-envv == <<cert, rot, ndef, nren, scale, clks, outs>>
+envv == <<cert, rot, ndef, nren, scale, tz, clks, outs>>
 sysv == <<phase, cur, visited, chain, certifier, steps>>
 obsv == <<outcome, failing, reported>>
-vars == <<cert, rot, ndef, nren, scale, clks, outs, phase, cur, visited, chain, certifier, steps, outcome, failing, reported>>
+vars == <<cert, rot, ndef, nren, scale, tz, clks, outs, phase, cur, visited, chain, certifier, steps, outcome, failing, reported>>
 
 (***************************************************************************)
 (* Env: genuine bases                                                      *)
@@ -93,7 +94,7 @@ Base(d, sp, em) ==
 
 Init == /\ \E d \in 1..MaxDepth, sp \in Spares, em \in Embeds :
               (sp = "none" \/ em = "none") /\ cert = Base(d, sp, em)
-        /\ rot = GoodRot /\ ndef = 0 /\ nren = 0 /\ scale = "near" /\ clks = <<2>> /\ outs = <<>>
+        /\ rot = GoodRot /\ ndef = 0 /\ nren = 0 /\ scale = "near" /\ tz = "utc" /\ clks = <<2>> /\ outs = <<>>
         /\ phase = "env" /\ cur = None /\ visited = {} /\ chain = <<>> /\ certifier = None /\ steps = 0
         /\ outcome = None /\ failing = None /\ reported = None
 
@@ -155,7 +156,7 @@ Mutate == /\ phase = "env" /\ ndef < MaxDefects
              \/ WrongRoot \/ ForgeTop
              \/ \E w \in Windows \ {"all"} : SetRootWindow(w)
           /\ ndef' = ndef + 1
-          /\ UNCHANGED <<scale, clks, outs, sysv, obsv>>
+          /\ UNCHANGED <<scale, tz, clks, outs, sysv, obsv>>
 
 (***************************************************************************)
 (* Sys: HSMCertificate._parse (path-to-root sanity check for the target)   *)
@@ -221,7 +222,7 @@ Walk ==
 MutateName == /\ phase = "env" /\ ndef < MaxDefects /\ ndef < MaxWithRename /\ nren < MaxRenames
               /\ \E n \in DOMAIN cert, v \in Namings \ {"canon"} : Rename(n, v)
               /\ ndef' = ndef + 1 /\ nren' = nren + 1
-              /\ UNCHANGED <<scale, clks, outs, sysv, obsv>>
+              /\ UNCHANGED <<scale, tz, clks, outs, sysv, obsv>>
 
 \* The validity DATES themselves (another choice the reference never reads, sharing the budget of the
 \* namings): "near" = instants 1, 3 a few days before / after now and window ends within years of it;
@@ -234,7 +235,15 @@ MutateName == /\ phase = "env" /\ ndef < MaxDefects /\ ndef < MaxWithRename /\ n
 Stretch == /\ phase = "env" /\ ndef < MaxDefects /\ ndef < MaxWithRename /\ nren < MaxRenames
            /\ scale = "near" /\ scale' = "extreme"
            /\ ndef' = ndef + 1 /\ nren' = nren + 1
-           /\ UNCHANGED <<cert, rot, clks, outs, sysv, obsv>>
+           /\ UNCHANGED <<cert, rot, tz, clks, outs, sysv, obsv>>
+
+\* The machine's own time zone (again read by nobody: validity is about instants, X.509 dates are UTC):
+\* UTC, UTC-8, UTC+9, UTC+14, UTC-12.  Combined with every window defect and clock position.
+Zones == {"utc", "m8", "p9", "p14", "m12"}
+Shift == /\ phase = "env" /\ ndef < MaxDefects /\ ndef < MaxWithRename /\ nren < MaxRenames
+         /\ tz = "utc" /\ \E z \in Zones \ {"utc"} : tz' = z
+         /\ ndef' = ndef + 1 /\ nren' = nren + 1
+         /\ UNCHANGED <<cert, rot, scale, clks, outs, sysv, obsv>>
 
 (***************************************************************************)
 (* Env: time passes (or is set back) and the SAME loaded certificate object *)
@@ -252,10 +261,10 @@ Tick == /\ phase = "done" /\ outcome # "loaderror" /\ Len(clks) < MaxRounds /\ T
         /\ outs' = Append(outs, outcome)
         /\ phase' = "build" /\ cur' = Target /\ chain' = <<>> /\ certifier' = None /\ steps' = 0
         /\ outcome' = None /\ failing' = None /\ reported' = None
-        /\ UNCHANGED <<ndef, nren, scale, visited>>
+        /\ UNCHANGED <<ndef, nren, scale, tz, visited>>
 
 SysNext == Start \/ ParseStep \/ Build \/ Walk
-Next == Mutate \/ MutateName \/ Stretch \/ SysNext \/ Tick
+Next == Mutate \/ MutateName \/ Stretch \/ Shift \/ SysNext \/ Tick
 Spec == Init /\ [][Next]_vars /\ WF_vars(Next)
 
 (***************************************************************************)
